@@ -171,12 +171,14 @@ def poly_of(g, shape, **kw):
 def same_family(g, count, shapes, kind=None):
     """Polynomials with differing name / term sets (for joins)."""
     kind = kind or g.rng.choice(G.KINDS)
+    mixed = g.rng.random() < 0.3  # operands of different coefficient kinds (narrower first or last)
     out = []
     for i in range(count):
+        k = g.rng.choice(["int", "float", "complex"]) if mixed else kind
         if g.rng.random() < 0.25:
-            out.append(g.const_operand(shape=shapes[i], kind=kind))
+            out.append(g.const_operand(shape=shapes[i], kind=k))
         else:
-            out.append(g.poly(shape=shapes[i], kind=kind))
+            out.append(g.poly(shape=shapes[i], kind=k))
     if all(o["k"] != "poly" for o in out):
         out[0] = g.poly(shape=shapes[0], kind=kind)
     return out
@@ -219,11 +221,18 @@ def _gen_reshape(g):
         options.append((2, 1, size // 2))
     new = g.rng.choice(options)
     kw = {"shape": list(new)}
-    if g.rng.random() < 0.2:
-        kw["order"] = g.rng.choice(["C", "F"])
+    if g.rng.random() < 0.3:
+        kw["order"] = g.rng.choice(["C", "F", "A", "A"])
     if len(new) == 1 and g.rng.random() < 0.3:
         kw["shape"] = new[0]
-    return {"operands": [poly_of(g, shape)], "kw": kw}
+    operand = poly_of(g, shape)
+    if kw.get("order") == "A":
+        # numpy reads in Fortran order iff the array is Fortran- and not C-contiguous; the model
+        # array has no memory layout of its own, so the effective order is recorded with the case
+        dummy = numpy.zeros(tuple(shape)[::-1]).T if operand.get("view") == "T" else numpy.zeros(shape)
+        kw["order_effective"] = "F" if dummy.flags.f_contiguous and not dummy.flags.c_contiguous \
+            else "C"
+    return {"operands": [operand], "kw": kw}
 
 
 def _shape_arg(kw):
@@ -233,7 +242,8 @@ def _shape_arg(kw):
 
 Op("reshape", "shape", _gen_reshape,
    lambda ns, ops, kw: ns.reshape(ops[0], _shape_arg(kw), **kwget(kw, "order")),
-   np_on_objects(lambda np_, m, kw: np_.reshape(m[0], _shape_arg(kw), **kwget(kw, "order"))),
+   np_on_objects(lambda np_, m, kw: np_.reshape(
+       m[0], _shape_arg(kw), **({"order": kw.get("order_effective", kw["order"])} if "order" in kw else {}))),
    method=lambda ops, kw: ops[0].reshape(_shape_arg(kw), **kwget(kw, "order")))
 
 
@@ -713,7 +723,8 @@ def _gen_diff(g):
             pshape = list(shape)
             pshape[axis] = g.rng.choice([1, 2])
             kw[name] = len(ops)
-            ops.append(poly_of(g, tuple(pshape), maxexp=2, kind=ops[0]["kind"]))
+            kind = ops[0]["kind"] if g.rng.random() < 0.6 else g.rng.choice(["int", "float", "complex"])
+            ops.append(poly_of(g, tuple(pshape), maxexp=2, kind=kind))
     return {"operands": ops, "kw": kw}
 
 
@@ -1115,6 +1126,40 @@ for _name in ("floor_divide", "true_divide", "divide", "remainder", "mod"):
 mirror("divmod", _gen_numdiv, lambda ns, ops, kw: ns.divmod(ops[0], ops[1]), result="tuple")
 
 
+def _gen_numdiv_float(g):
+    case = _gen_numdiv(g)
+    for spec in case["operands"]:
+        if spec["k"] == "poly":
+            spec["kind"] = "float"
+            spec["coefs"] = [G.nested_map(float, spec["coefs"][0])]
+        elif spec["k"] == "py":
+            spec["v"] = float(spec["v"])
+    # out= is the dividend itself: the divisor has the same shape or is a scalar
+    a, b = case["operands"]
+    if b["k"] == "poly" and list(b["shape"]) != list(a["shape"]):
+        b["shape"] = list(a["shape"])
+        b["coefs"] = [G.nested_map(lambda v: float(v) if v else 2.0, a["coefs"][0])]
+        b.pop("view", None)
+    return case
+
+
+def _div_out_alias(name):
+    def call(ns, ops, kw):
+        # out= handling differs between the spellings of these two functions (the ufunc protocol
+        # hands over a tuple): each is driven through the spelling that accepts a polynomial out
+        target = ops[0].copy()
+        if isinstance(target, numpy.ndarray) and type(target) is numpy.ndarray:
+            return getattr(numpy, name)(target, ops[1], out=target)
+        import numpoly
+        func = getattr(numpy, name) if name == "true_divide" else getattr(numpoly, name)
+        return func(target, ops[1], out=target)
+    return call
+
+
+for _name in ("true_divide", "floor_divide"):
+    mirror(_name + "_out_alias", _gen_numdiv_float, _div_out_alias(_name), npname=_name)
+
+
 def _gen_axis_reduce(keepdims=True, axis_tuple=False, mindim=0):
     def gen(g):
         shape = nd_shape(g, mindim=mindim)
@@ -1143,6 +1188,25 @@ for _name, _kd, _tuple in (("all", True, True), ("any", True, True), ("amax", Tr
 
 mirror("nonzero", _gen_one(mindim=1), lambda ns, ops, kw: ns.nonzero(ops[0]), result="tuple",
        method=lambda ops, kw: ops[0].nonzero())
+
+
+def _argext_out(name):
+    def call(ns, ops, kw):
+        buf = numpy.zeros((), dtype=numpy.intp) if "axis" not in kw else None
+        if buf is None:
+            ref = numpy.argmax(numpy.zeros(ops[0].shape), axis=kw["axis"])
+            buf = numpy.zeros(ref.shape, dtype=numpy.intp)
+        extra = {"axis": kw["axis"]} if "axis" in kw else {}
+        res = getattr(ns, name)(ops[0], out=buf, **extra)
+        return [numpy.asarray(res), buf]
+    return call
+
+
+for _name in ("argmax", "argmin"):
+    mirror(_name + "_out", _gen_axis_reduce(keepdims=False, axis_tuple=False, mindim=1),
+           _argext_out(_name), npname=_name, result="tuple")
+
+
 
 
 def _gen_creation(g):
